@@ -337,6 +337,11 @@ def gen_search(rep, binpath, items, outl, broken):
     ok, log = F.coq_make("theories/Ring/RingGenRun.vo")
     if not ok:
         return None, None, "the regenerated model does not compile, it cannot be run: " + " ".join(log[-600:].split())
+    # the regenerated model is run WITHOUT the index normalisation of Ring/RingRun.v (proved invisible for the hand
+    # model only): cases with an index too large for a unary nat stay out
+    small = lambda it: all(not (o[0] in INDEX_OPS and o[1] > 4096) for o in it["ops"])
+    keep = [i for i, it in enumerate(items) if small(it)]
+    items, outl = [items[i] for i in keep], [outl[i] for i in keep]
     terms = [f"({it['coq']}, {F.zlistlist(F.norm_obs_line(o))})" for it, o in zip(items, outl)]
     bad_any, e1 = F.coq_check_cases("c06_gen", GEN_HEADER, "both_gen", terms)
     if e1:
@@ -370,7 +375,7 @@ def gen_search(rep, binpath, items, outl, broken):
             "why": broken, "case": case_of(small), "model": "generated", "against": tag,
             "harness_line": small["line"], "implementation_observations": out,
             "generated_model_observations": gmodel[-3000:], "hand_model_observations": hmodel[-3000:],
-            "failing_cases_in_this_run": len(bad), "original_case_index": idx,
+            "failing_cases_in_this_run": len(bad), "cases_run_on_the_generated_model": len(items),
             "replay": "./check.py C06 --replay <this file>"})
         break
     return len(bad_crate), len(bad_hand), None
